@@ -1,6 +1,7 @@
 from contracts.values import CONTRACTS as _C
 from contracts.alignment import FormatLength
-CONTRACTS = list(_C) + [FormatLength]
+from contracts.writer import StoredEditsNative
+CONTRACTS = list(_C) + [StoredEditsNative] + [FormatLength]
 
 MANIFEST = {
     "category": "proof",
